@@ -71,6 +71,26 @@ class VariableComputationNode(ComputationNode):
                 return l.target
         return None
 
+    def _simple_repr(self):
+        # The order links are added to the node by the graph: they cannot be
+        # rebuilt from the variable and constraints given to the constructor.
+        r = super()._simple_repr()
+        r["order_links"] = [
+            simple_repr(l) for l in self.links if l.type in ("previous", "next")
+        ]
+        return r
+
+    @classmethod
+    def _from_repr(cls, r):
+        args = {
+            k: from_repr(v)
+            for k, v in r.items()
+            if k not in ["__qualname__", "__module__", "order_links"]
+        }
+        node = cls(**args)
+        node.links.extend(from_repr(r.get("order_links", [])))
+        return node
+
     def __eq__(self, other):
         if type(other) != VariableComputationNode:
             return False
